@@ -191,9 +191,13 @@ func runC04(c *ShardCtx) {
 			func() *peg.Expr {
 				return peg.Action(0, peg.Seq(peg.AndCode(0), peg.Label("x", lit("x")), peg.StateCode(0), peg.NotCode(0)))
 			},
+			// labels that are not direct items of the rule's sequence: in a parenthesised
+			// sub-sequence, under a nested action
+			func() *peg.Expr { return peg.Seq(lit("("), peg.Seq(peg.Label("k", lit("x")), lit(":"), peg.Label("w", lit("x"))), lit(")")) },
+			func() *peg.Expr { return peg.Seq(peg.Action(0, peg.Label("k", lit("x"))), lit(";")) },
 		}
 		for li, lb := range leafBodies {
-			for shape := 0; shape < 3; shape++ {
+			for shape := 0; shape < 4; shape++ {
 				idx++
 				if !c.Mine(idx) {
 					continue
@@ -208,6 +212,8 @@ func runC04(c *ShardCtx) {
 					rules[0].Expr = peg.Action(0, peg.Seq(peg.Label("v", peg.Ref("L")), peg.Label("t", peg.Ref("T")), peg.Label("u", peg.Opt(peg.Ref("U")))))
 				case 2:
 					rules[1].Expr = peg.Choice(peg.Seq(peg.Ref("L"), peg.Ref("L"), peg.Ref("T")), lit("b"))
+				case 3: // two unlabelled references in ONE scope that has a code block, next to an equally named label
+					rules[0].Expr = peg.Action(0, peg.Seq(peg.Ref("L"), lit(","), peg.Ref("L"), peg.Label("k", peg.Opt(lit("q"))), peg.Opt(peg.Ref("T"))))
 				}
 				rules = append(rules, &peg.Rule{Name: "L", Expr: lb()})
 				g := &peg.Grammar{Rules: rules}
@@ -216,7 +222,7 @@ func runC04(c *ShardCtx) {
 				for _, gen := range []core.Gen{{OptGrammar: true}, {OptGrammar: true, Optimize: true}} {
 					structural(g, gen, "inlining into several rules", false)
 				}
-				addBatch(strings.Replace(peg.Print(g, nil), "package vgram", "package PKG", 1), core.Gen{OptGrammar: true}.Argv(), "inlining into several rules", li != 3 || shape == 0)
+				addBatch(strings.Replace(peg.Print(g, nil), "package vgram", "package PKG", 1), core.Gen{OptGrammar: true}.Argv(), "inlining into several rules", li != 3 || shape == 0 || shape == 3)
 			}
 		}
 	}
